@@ -535,3 +535,302 @@ Proof.
   cbv zeta. split; [discriminate|]. split; [vm_compute; discriminate|].
   split; [eexists; split; [vm_compute; reflexivity|split; reflexivity]|vm_compute; reflexivity].
 Qed.
+
+(* ================================================================== *)
+(** * Part C — the semi-MDP's outcome distribution *)
+
+(* --- counting into a dict keyed up to a boolean equivalence ----------- *)
+Section Counting.
+Context {K : Type} (eqb : K -> K -> bool).
+Hypothesis eqb_refl : forall x, eqb x x = true.
+Hypothesis eqb_sym : forall x y, eqb x y = eqb y x.
+Hypothesis eqb_trans : forall x y z, eqb x y = true -> eqb y z = true -> eqb x z = true.
+
+(* an event: a predicate that does not distinguish equal keys *)
+Definition respects (P : K -> bool) : Prop := forall x y, eqb x y = true -> P x = P y.
+Definition respectsQ (g : K -> Q) : Prop := forall x y, eqb x y = true -> (g x == g y)%Q.
+
+Definition countb {A : Type} (P : A -> bool) (l : list A) : nat := List.length (filter P l).
+
+Lemma countb_cons : forall (A : Type) (P : A -> bool) x l,
+  countb P (x :: l) = (if P x then 1 else 0) + countb P l.
+Proof. intros A P x l. unfold countb. simpl. destruct (P x); reflexivity. Qed.
+
+Lemma countb_map : forall (A B : Type) (f : A -> B) (P : B -> bool) l,
+  countb P (map f l) = countb (fun a => P (f a)) l.
+Proof.
+  intros A B f P l. induction l as [|x r IH]; [reflexivity|].
+  simpl map. rewrite !countb_cons, IH. reflexivity.
+Qed.
+
+Lemma countb_true : forall (A : Type) (l : list A), countb (fun _ => true) l = List.length l.
+Proof. intros A l. induction l as [|x r IH]; [reflexivity|]. rewrite countb_cons, IH. reflexivity. Qed.
+
+Lemma eqb_respects : forall k, respects (eqb k).
+Proof.
+  intros k x y Hxy. destruct (eqb k x) eqn:Hx.
+  - symmetry. exact (eqb_trans _ _ _ Hx Hxy).
+  - destruct (eqb k y) eqn:Hy; [|reflexivity].
+    rewrite eqb_sym in Hxy. rewrite (eqb_trans _ _ _ Hy Hxy) in Hx. discriminate Hx.
+Qed.
+
+(* total count of the entries whose key satisfies P *)
+Fixpoint csum (P : K -> bool) (cs : list (K * nat)) : nat :=
+  match cs with [] => 0 | kc :: r => (if P (fst kc) then snd kc else 0) + csum P r end.
+
+Lemma csum_count_add : forall P, respects P -> forall k cs,
+  csum P (count_add eqb k cs) = csum P cs + (if P k then 1 else 0).
+Proof.
+  intros P HP k cs. induction cs as [|[k' c] r IH]; simpl.
+  - lia.
+  - destruct (eqb k k') eqn:Hk; simpl.
+    + rewrite (HP _ _ Hk). destruct (P k'); lia.
+    + rewrite IH. lia.
+Qed.
+
+Lemma csum_fold : forall P, respects P -> forall ks acc,
+  csum P (fold_left (fun cs k => count_add eqb k cs) ks acc) = csum P acc + countb P ks.
+Proof.
+  intros P HP ks. induction ks as [|k r IH]; intro acc; simpl.
+  - unfold countb. simpl. lia.
+  - rewrite IH, csum_count_add by exact HP. rewrite countb_cons. lia.
+Qed.
+
+Theorem csum_count_all : forall P, respects P -> forall ks, csum P (count_all eqb ks) = countb P ks.
+Proof. intros P HP ks. unfold count_all. rewrite csum_fold by exact HP. reflexivity. Qed.
+
+(* keys of a dict are pairwise different *)
+Fixpoint keys_distinct (ks : list K) : Prop :=
+  match ks with [] => True | k :: r => (forall k', In k' r -> eqb k k' = false) /\ keys_distinct r end.
+
+Lemma count_add_keys : forall k cs k',
+  In k' (map fst (count_add eqb k cs)) -> k' = k \/ In k' (map fst cs).
+Proof.
+  intros k cs k'. induction cs as [|[k0 c] r IH]; simpl.
+  - intros [E|[]]. left. symmetry. exact E.
+  - destruct (eqb k k0); simpl.
+    + intros [E|H]; right; [left; exact E|right; exact H].
+    + intros [E|H]; [right; left; exact E|]. destruct (IH H) as [E|H']; [left; exact E|right; right; exact H'].
+Qed.
+
+Lemma count_add_distinct : forall k cs,
+  keys_distinct (map fst cs) -> keys_distinct (map fst (count_add eqb k cs)).
+Proof.
+  intros k cs. induction cs as [|[k0 c] r IH]; simpl.
+  - intros _. split; [intros k' []|exact I].
+  - intros [Hh Ht]. destruct (eqb k k0) eqn:Hk; simpl.
+    + split; assumption.
+    + split; [|exact (IH Ht)].
+      intros k' Hin. destruct (count_add_keys _ _ _ Hin) as [E|Hin'].
+      * subst k'. rewrite eqb_sym. exact Hk.
+      * exact (Hh _ Hin').
+Qed.
+
+Lemma count_all_distinct : forall ks, keys_distinct (map fst (count_all eqb ks)).
+Proof.
+  intro ks. unfold count_all.
+  assert (G : forall acc, keys_distinct (map fst acc) ->
+                          keys_distinct (map fst (fold_left (fun cs k => count_add eqb k cs) ks acc))).
+  { induction ks as [|k r IH]; intros acc Hacc; simpl; [exact Hacc|].
+    apply IH. apply count_add_distinct. exact Hacc. }
+  apply G. exact I.
+Qed.
+
+(* every stored count is positive *)
+Lemma count_add_pos : forall k cs,
+  Forall (fun kc => 0 < snd kc) cs -> Forall (fun kc => 0 < snd kc) (count_add eqb k cs).
+Proof.
+  intros k cs H. induction H as [|[k0 c] r Hc Hr IH]; simpl.
+  - constructor; [simpl; lia|constructor].
+  - destruct (eqb k k0); constructor; simpl in *; try lia; assumption.
+Qed.
+
+Lemma count_all_pos : forall ks, Forall (fun kc => 0 < snd kc) (count_all eqb ks).
+Proof.
+  intro ks. unfold count_all.
+  assert (G : forall acc, Forall (fun kc : K * nat => 0 < snd kc) acc ->
+                          Forall (fun kc : K * nat => 0 < snd kc) (fold_left (fun cs k => count_add eqb k cs) ks acc)).
+  { induction ks as [|k r IH]; intros acc Hacc; simpl; [exact Hacc|].
+    apply IH. apply count_add_pos. exact Hacc. }
+  apply G. constructor.
+Qed.
+
+(* --- probability mass of an event under a dict distribution ---------- *)
+Fixpoint mass (P : K -> bool) (d : dist K) : Q :=
+  match d with [] => 0%Q | kp :: r => ((if P (fst kp) then snd kp else 0) + mass P r)%Q end.
+
+Lemma qnat_add : forall a b, (qnat (a + b) == qnat a + qnat b)%Q.
+Proof. intros a b. unfold qnat. rewrite Nat2Z.inj_add, inject_Z_plus. reflexivity. Qed.
+
+Lemma qnat_S : forall a, (qnat (S a) == qnat a + 1)%Q.
+Proof. intro a. replace (S a) with (a + 1) by lia. rewrite qnat_add. reflexivity. Qed.
+
+Lemma mass_counts : forall P n cs,
+  (mass P (map (fun kc => (fst kc, (qnat (snd kc) / qnat n)%Q)) cs) == qnat (csum P cs) / qnat n)%Q.
+Proof.
+  intros P n cs. induction cs as [|[k c] r IH]; cbn [mass map csum fst snd].
+  - change (qnat 0) with 0%Q. unfold Qdiv. ring.
+  - rewrite IH, qnat_add. destruct (P k); [unfold Qdiv; ring|].
+    change (qnat 0) with 0%Q. unfold Qdiv. ring.
+Qed.
+
+(* weighted sums (for expectations) *)
+Fixpoint wsum (g : K -> Q) (d : dist K) : Q :=
+  match d with [] => 0%Q | kp :: r => (g (fst kp) * snd kp + wsum g r)%Q end.
+Fixpoint cw (g : K -> Q) (cs : list (K * nat)) : Q :=
+  match cs with [] => 0%Q | kc :: r => (g (fst kc) * qnat (snd kc) + cw g r)%Q end.
+Fixpoint lsum (g : K -> Q) (l : list K) : Q :=
+  match l with [] => 0%Q | x :: r => (g x + lsum g r)%Q end.
+
+Lemma cw_count_add : forall g, respectsQ g -> forall k cs,
+  (cw g (count_add eqb k cs) == cw g cs + g k)%Q.
+Proof.
+  intros g Hg k cs. induction cs as [|[k' c] r IH]; simpl.
+  - unfold qnat. simpl. ring.
+  - destruct (eqb k k') eqn:Hk; simpl.
+    + rewrite qnat_S, (Hg _ _ Hk). ring.
+    + rewrite IH. ring.
+Qed.
+
+Lemma cw_fold : forall g, respectsQ g -> forall ks acc,
+  (cw g (fold_left (fun cs k => count_add eqb k cs) ks acc) == cw g acc + lsum g ks)%Q.
+Proof.
+  intros g Hg ks. induction ks as [|k r IH]; intro acc; simpl.
+  - ring.
+  - rewrite IH, cw_count_add by exact Hg. ring.
+Qed.
+
+Lemma wsum_counts : forall g n cs,
+  (wsum g (map (fun kc => (fst kc, (qnat (snd kc) / qnat n)%Q)) cs) == cw g cs / qnat n)%Q.
+Proof.
+  intros g n cs. induction cs as [|[k c] r IH]; simpl.
+  - unfold Qdiv. ring.
+  - rewrite IH. unfold Qdiv. ring.
+Qed.
+
+(* --- marginalize is a push-forward ------------------------------------ *)
+Lemma mass_madd : forall P, respects P -> forall k p acc,
+  (mass P (madd eqb k p acc) == mass P acc + (if P k then p else 0))%Q.
+Proof.
+  intros P HP k p acc. induction acc as [|[k' p'] r IH]; simpl.
+  - ring.
+  - destruct (eqb k k') eqn:Hk; simpl.
+    + rewrite (HP _ _ Hk). destruct (P k'); ring.
+    + rewrite IH. ring.
+Qed.
+
+Lemma madd_keys : forall k p acc k',
+  In k' (map fst (madd eqb k p acc)) -> k' = k \/ In k' (map fst acc).
+Proof.
+  intros k p acc k'. induction acc as [|[k0 c] r IH]; simpl.
+  - intros [E|[]]. left. symmetry. exact E.
+  - destruct (eqb k k0); simpl.
+    + intros [E|H]; right; [left; exact E|right; exact H].
+    + intros [E|H]; [right; left; exact E|]. destruct (IH H) as [E|H']; [left; exact E|right; right; exact H'].
+Qed.
+
+Lemma madd_distinct : forall k p acc,
+  keys_distinct (map fst acc) -> keys_distinct (map fst (madd eqb k p acc)).
+Proof.
+  intros k p acc. induction acc as [|[k0 c] r IH]; simpl.
+  - intros _. split; [intros k' []|exact I].
+  - intros [Hh Ht]. destruct (eqb k k0) eqn:Hk; simpl.
+    + split; assumption.
+    + split; [|exact (IH Ht)].
+      intros k' Hin. destruct (madd_keys _ _ _ _ Hin) as [E|Hin'].
+      * subst k'. rewrite eqb_sym. exact Hk.
+      * exact (Hh _ Hin').
+Qed.
+
+Lemma madd_fresh : forall k p acc,
+  (forall k', In k' (map fst acc) -> eqb k k' = false) -> madd eqb k p acc = acc ++ [(k, p)].
+Proof.
+  intros k p acc. induction acc as [|[k0 c] r IH]; simpl; intro H; [reflexivity|].
+  rewrite (H k0 (or_introl eq_refl)). f_equal. apply IH. intros k' Hin. apply H. right. exact Hin.
+Qed.
+
+End Counting.
+
+Arguments respects {K} eqb P.
+Arguments respectsQ {K} eqb g.
+Arguments keys_distinct {K} eqb ks.
+Arguments mass {K} P d.
+Arguments wsum {K} g d.
+Arguments lsum {K} g l.
+
+Section Marginal.
+Context {A K : Type} (eqb : K -> K -> bool).
+Hypothesis eqb_refl : forall x, eqb x x = true.
+Hypothesis eqb_sym : forall x y, eqb x y = eqb y x.
+Hypothesis eqb_trans : forall x y z, eqb x y = true -> eqb y z = true -> eqb x z = true.
+Variable f : A -> K.
+
+Lemma mass_marginalize_acc : forall P, respects eqb P -> forall (d : dist A) acc,
+  (mass P (fold_left (fun acc ep => madd eqb (f (fst ep)) (snd ep) acc) d acc)
+   == mass P acc + mass (fun a => P (f a)) d)%Q.
+Proof.
+  intros P HP d. induction d as [|[a p] r IH]; intro acc; simpl.
+  - ring.
+  - rewrite IH, (mass_madd eqb) by exact HP. ring.
+Qed.
+
+(* the mass the marginal gives to an event = the mass the original gives to its preimage *)
+Theorem mass_marginalize : forall P, respects eqb P -> forall d : dist A,
+  (mass P (marginalize eqb f d) == mass (fun a => P (f a)) d)%Q.
+Proof.
+  intros P HP d. unfold marginalize. rewrite mass_marginalize_acc by exact HP. simpl. ring.
+Qed.
+
+Theorem marginalize_distinct : forall d : dist A, keys_distinct eqb (map fst (marginalize eqb f d)).
+Proof.
+  intro d. unfold marginalize.
+  assert (G : forall acc, keys_distinct eqb (map fst acc) ->
+     keys_distinct eqb (map fst (fold_left (fun acc ep => madd eqb (f (fst ep)) (snd ep) acc) d acc))).
+  { induction d as [|[a p] r IH]; intros acc Hacc; simpl; [exact Hacc|].
+    apply IH. apply (madd_distinct eqb eqb_sym). exact Hacc. }
+  apply G. exact I.
+Qed.
+
+(* every key of the marginal is the image of an element of the original *)
+Theorem marginalize_keys : forall (d : dist A) k,
+  In k (map fst (marginalize eqb f d)) -> exists a, In a (map fst d) /\ k = f a.
+Proof.
+  intros d k. unfold marginalize.
+  assert (G : forall acc, In k (map fst (fold_left (fun acc ep => madd eqb (f (fst ep)) (snd ep) acc) d acc)) ->
+                          In k (map fst acc) \/ exists a, In a (map fst d) /\ k = f a).
+  { induction d as [|[a p] r IH]; intros acc Hin; simpl in *; [left; exact Hin|].
+    destruct (IH _ Hin) as [H|(a' & Ha & E)].
+    - destruct (madd_keys eqb _ _ _ _ H) as [E|H']; [right; exists a; split; [left; reflexivity|exact E]|left; exact H'].
+    - right. exists a'. split; [right; exact Ha|exact E]. }
+  intro Hin. destruct (G [] Hin) as [[]|H]. exact H.
+Qed.
+
+(* injective projection of a dict: the marginal is the relabelled dict, entry by entry *)
+Theorem marginalize_injective : forall d : dist A,
+  (forall a b, In a (map fst d) -> In b (map fst d) -> eqb (f a) (f b) = true -> a = b) ->
+  NoDup (map fst d) ->
+  marginalize eqb f d = map (fun ep => (f (fst ep), snd ep)) d.
+Proof.
+  intros d Hinj Hnd. unfold marginalize.
+  assert (G : forall acc : dist K,
+     (forall k' a, In k' (map fst acc) -> In a (map fst d) -> eqb (f a) k' = false) ->
+     fold_left (fun acc ep => madd eqb (f (fst ep)) (snd ep) acc) d acc
+       = acc ++ map (fun ep => (f (fst ep), snd ep)) d).
+  { induction d as [|[a p] r IH]; intros acc Hacc; simpl.
+    - rewrite app_nil_r. reflexivity.
+    - simpl in Hnd. inversion Hnd as [|? ? Hna Hnd']; subst.
+      rewrite (madd_fresh eqb).
+      + rewrite IH.
+        * rewrite <- app_assoc. reflexivity.
+        * intros x y Hx Hy. apply Hinj; simpl; [right; exact Hx|right; exact Hy].
+        * exact Hnd'.
+        * intros k' b Hk' Hb. rewrite map_app in Hk'. apply in_app_or in Hk'. destruct Hk' as [Hk'|Hk'].
+          -- apply Hacc; [exact Hk'|right; exact Hb].
+          -- simpl in Hk'. destruct Hk' as [<-|[]].
+             destruct (eqb (f b) (f a)) eqn:E; [|reflexivity].
+             exfalso. apply Hna. rewrite <- (Hinj b a); [exact Hb|right; exact Hb|left; reflexivity|exact E].
+      + intros k' Hk'. apply Hacc; [exact Hk'|left; reflexivity]. }
+  rewrite G; [reflexivity|]. intros k' a [].
+Qed.
+
+End Marginal.
